@@ -243,4 +243,17 @@ def hlrunB : Nat → HLState → List Bool → List Bool
     | none => acc ++ hstepBits l.T l.h
     | some l' => hlrunB f l' (acc ++ hstepBits l.T l.h)
 
+/-! ### command position, as XCU 2.3.1 / 2.9.1 define it -/
+
+/-- XCU 2.3.1 / 2.9.1, written out: after which ACCEPTED token the next word is looked at as a command name.
+    Reserved words and operators that begin a (compound-)list, separators and pipeline / and-or operators: -/
+def Spec.startsCommandWord : List String := ["!", "{", "if", "then", "elif", "else", "while", "until", "do"]
+def Spec.startsCommandOp : List String := [";", "&", "&&", "||", "|", "\n", "("]
+/-- … and NOT after: `for` (a name follows), `case` (the subject), `in` (words / patterns), the name of a function
+    definition (`(` follows), a redirection operator (its operand follows), a command name or an argument. -/
+def Spec.noCommandAfter : List String := ["for", "case", "in"]
+
+/-- the states in which the next word is tested as a command name (`is_command_name = true`) -/
+def cmdPos (st : PState) : Bool := st == .cmd0 || st == .pre
+
 end YashModel.Alias
